@@ -8,6 +8,11 @@ ALL = ["C%02d" % i for i in range(1, 21)]
 
 # pid -> (category, level text, level note, technique, design_ref)
 CHECKS = {
+ "C15": ("proof",
+         "A transition-system model of stopper.go in which every goroutine is an explicit record and every label is exactly one mutex region (runPrelude, runPostlude with Broadcast, AddCloser, withCancel, Stop's first region, Quiesce's set-and-test and re-tests), one select case of RunLimitedAsyncTask, one channel or WaitGroup operation, or the begin/end of a callback; any number of concurrent Stop/Quiesce callers, arbitrary semaphore capacities; panics (double close, negative WaitGroup) explicit. An invariant with one preservation lemma per label (28) gives, for every label sequence: a refused task never runs; an accepted task completes before the stop channel closes; closers are called exactly once (before stopped, or at once when registered later); workers registered before stop.Wait() returned have ended before stopped closes; the phase order quiesce <= drained < stop < workers done < closers < stopped; the semaphore slot is held exactly while the limited task runs; no panic, no lost wake-up. The unrestricted worker clause is refuted with a witness (a RunWorker after Stop's wait returned: WaitGroup misuse, not reachable from the application). Tie: generated operation sequences replayed on the real Stopper (bodies blocked on harness channels; observables polled until they settle) and compared after every operation with the model (11 observables), plus an independent ordering oracle over logged event histories, including free-running histories under -race.",
+         "Trusted: Coq kernel+VM, harness+hook. Assumed: atomicity of the mutex regions, sync/channel semantics, callbacks that do not re-enter the Stopper; Stop's panic branch and panicking callbacks are outside the model; no liveness theorem (only no-lost-wakeup and release-never-blocks).",
+         "Rocq/Coq proof (invariant over all label sequences of an LTS) + controlled-schedule correspondence + ordering oracle under the race detector",
+         "DESIGN.md section 6, C15"),
  "C10": ("proof",
          "A clause-level builder model of parseCfg/printCfg (Model/Config.v: 28 clause kinds, apply with every duplicate / definition-before-use check and the name-order slices, print in printCfg's order, render of the concrete text). Theorems by induction over every accepted clause list: every reachable state is well formed (c10_reachable_wf); for every reachable state that satisfies the decidable `printable` predicate, replaying the printed clauses from the empty configuration succeeds with an explicit canonical state that is the same play and prints the same text up to one observer's watches (c10_reload_partial); parameters are substituted once, first -D wins. The full reload statement is refuted with five witnesses (the known reload-failure shapes), each replayed on the real code. Tie: 1,500 (thorough 20,000) generated configurations — free layout, comments, continuations, several sections, parameters via -D/defaults, includes — loaded four ways through the real parser/printer; Go-side comparison of acceptance, printed text, exported configuration, steps and hash, and six Coq queries (model first load, model reload, oracle, hypothesis/invariant, rendered text byte for byte).",
          "Trusted: Coq kernel+VM, harness+hook. Outside the theorem: the lexical layer on the way in (line regexps, white space, continuations, includes), Go's regexp/govaluate/time libraries (oracles: theorems hold for all their values), variable watcher lists, and storyline well-formedness (C06, under its no-control-white-space assumption: story_printable is a hypothesis of the general theorem). Seven reload-failure shapes are known findings.",
